@@ -399,8 +399,9 @@ From V Require Import Validate ValidateBridge ValidateBridgeRun.
    (all event histories, datamodel variants, numbers of steps, early/late binding) of the large-step AND of the fast
    engine model the configuration is legal.
    SIDE CONDITIONS (vb_docb: the root is the only <scxml>; vb_hidden_freshb: a numbering condition of the tree type;
-   vb_sideb: the root has a child state, no history below <parallel>, default transitions of histories and
-   transitions of <initial> name proper states, no state below the parent of a deep history owns a history).  None
+   vb_sideb: the root has a child state, no history below <parallel>, transitions of <initial> name proper states,
+   no state below the parent of a deep history owns a history; that default transitions of histories name proper
+   states follows from validation since patches/C19-history-default-pseudo-target.diff).  None of the conditions listed
    follows from validation; see Properties_C19.v for the witness of each (C02-K1 is accepted by the validator:
    validated_documents_need_disjoint_histories_refuted below).
    NOT COVERED: the generated C; documents outside the side conditions. *)
